@@ -559,8 +559,12 @@ func c12Ids(c *Ctx) {
 				}
 				inner, ok := ast.Unparen(call.Args[0]).(*ast.CallExpr)
 				var format string
-				if ok && funcFullName(calleeOf(gen.TypesInfo, inner)) == "fmt.Sprintf" {
-					format, _ = constString(gen.TypesInfo, inner.Args[0])
+				var ninner *ast.CallExpr
+				if ok {
+					ninner, ok = normSprintf(gen.TypesInfo, inner)
+				}
+				if ok {
+					format, _ = constString(gen.TypesInfo, ninner.Args[0])
 				} else if s, ok := constString(gen.TypesInfo, call.Args[0]); ok {
 					format = s
 				}
@@ -865,7 +869,10 @@ func c12NodeBinding(info *types.Info, fd *ast.FuncDecl, nodeArg ast.Expr) string
 	found := ""
 	ast.Inspect(fd.Body, func(n ast.Node) bool {
 		call, ok := n.(*ast.CallExpr)
-		if !ok || funcFullName(calleeOf(info, call)) != "fmt.Sprintf" || len(call.Args) != 3 {
+		if !ok {
+			return true
+		}
+		if call, ok = normSprintf(info, call); !ok || len(call.Args) != 3 {
 			return true
 		}
 		if s, ok := constString(info, call.Args[0]); ok && strings.HasSuffix(strings.TrimSpace(s), "= %s[_]") {
